@@ -404,6 +404,8 @@ ITE_HOOKS = []   # fn(c, a, b) -> SV | None for value kinds defined outside this
 
 def ite(c, a, b):
     """structural if-then-else on symbolic values"""
+    if z3.is_app(c) and c.num_args() == 2 and all(z3.is_int_value(a) for a in c.children()):
+        c = z3.simplify(c)        # comparison of two numerals (element k of a list of concrete length)
     if is_true(c):
         return a
     if is_false(c):
